@@ -5,7 +5,7 @@ using namespace mx;
 namespace {
 
 int run(const Args& a, Recorder& rec) {
-    Clock clk; std::vector<PlanItem> plan = plan_modelspace(a, "s");
+    Clock clk; std::vector<PlanItem> plan = plan_modelspace(a, "m");
     { PlanItem it; it.shape = "S4r"; it.depth = a.thorough() ? 2 : 1; plan.push_back(it); }
     for_each_state(a, rec, plan, [&](Ctx& c0) {
         std::vector<Gen> hist = hist_gens(c0.A, c0.st.hist);
